@@ -231,6 +231,11 @@ pub trait Family: Sized {
     fn trailing_empty(_kind: &str, _nkids: usize) -> bool {
         false
     }
+    /// known finding `subquery-jump-absorbed` only: a Jump pending after child `child` (natural
+    /// index) of a node is absorbed; returns the children that are skipped as a consequence
+    fn absorbs_jump(_kind: &str, _nkids: usize, _child: usize) -> Option<Vec<usize>> {
+        None
+    }
 }
 
 pub fn leaf_spec<F: Family>(id: u32) -> RNode {
@@ -480,13 +485,17 @@ impl<F: Family> Machine<'_, F> {
 }
 
 pub fn reference<F: Family>(tree: &RNode, api: Api, dec: &[Dec]) -> RefOut {
-    reference_mode::<F>(tree, api, dec, false)
+    reference_mode::<F>(tree, api, dec, 0)
 }
 
-/// `deviation = true` models the behaviour recorded as known finding `trailing-empty-container`
-/// (a Jump returned for the last child is forgotten when the node's container layout ends with an
-/// empty container). It is used ONLY to decide whether a case falls under that open finding.
-pub fn reference_mode<F: Family>(tree: &RNode, api: Api, dec: &[Dec], deviation: bool) -> RefOut {
+pub const DEV_TRAILING: u8 = 1;
+pub const DEV_ABSORB: u8 = 2;
+
+/// `deviation != 0` models behaviour recorded as known findings: DEV_TRAILING =
+/// `trailing-empty-container` (a Jump returned for the last child is forgotten when the node's
+/// container layout ends with an empty container), DEV_ABSORB = `subquery-jump-absorbed`. It is
+/// used ONLY to decide whether a case falls under an open finding, never as the oracle.
+pub fn reference_mode<F: Family>(tree: &RNode, api: Api, dec: &[Dec], deviation: u8) -> RefOut {
     let mut m: Machine<F> = Machine { root: tree.clone(), dec, mutating: api.mutating(), predicate: api == Api::Exists, calls: vec![], transformed: false, next_fresh: FRESH_BASE, _f: PhantomData };
     if api.one_level() {
         let mut last = Rec::C;
@@ -496,7 +505,7 @@ pub fn reference_mode<F: Family>(tree: &RNode, api: Api, dec: &[Dec], deviation:
                 break;
             }
         }
-        if deviation && last == Rec::J && F::trailing_empty(m.root.kind, m.root.kids.len()) {
+        if deviation & DEV_TRAILING != 0 && last == Rec::J && F::trailing_empty(m.root.kind, m.root.kids.len()) {
             last = Rec::C;
         }
         return RefOut { calls: m.calls, tree: m.root, transformed: m.transformed, rec: last };
@@ -534,7 +543,7 @@ pub fn reference_mode<F: Family>(tree: &RNode, api: Api, dec: &[Dec], deviation:
             continue;
         }
         let fr = stack.pop().unwrap();
-        if deviation && pending_jump && !fr.order.is_empty() {
+        if deviation & DEV_TRAILING != 0 && pending_jump && !fr.order.is_empty() {
             let n = m.root.get(&fr.path);
             if F::trailing_empty(n.kind, n.kids.len()) {
                 pending_jump = false;
@@ -548,6 +557,18 @@ pub fn reference_mode<F: Family>(tree: &RNode, api: Api, dec: &[Dec], deviation:
                 }
                 Rec::J => pending_jump = true,
                 Rec::C => {}
+            }
+        }
+        if deviation & DEV_ABSORB != 0 && pending_jump {
+            if let (Some(parent), Some(&child)) = (stack.last_mut(), fr.path.last()) {
+                let pn = m.root.get(&parent.path);
+                if let Some(skips) = F::absorbs_jump(pn.kind, pn.kids.len(), child) {
+                    pending_jump = false;
+                    let done = parent.next;
+                    let mut keep: Vec<usize> = parent.order[..done].to_vec();
+                    keep.extend(parent.order[done..].iter().copied().filter(|c| !skips.contains(c)));
+                    parent.order = keep;
+                }
             }
         }
     }
@@ -658,7 +679,7 @@ impl<'a, F: Family> Driver<'a, F> {
     }
 }
 
-struct Vis<'d, 'a, F: Family>(&'d mut Driver<'a, F>);
+pub struct Vis<'d, 'a, F: Family>(pub &'d mut Driver<'a, F>);
 impl<'n, F: Family> TreeNodeVisitor<'n> for Vis<'_, '_, F>
 where
     F::Node: TreeNode,
@@ -672,7 +693,7 @@ where
     }
 }
 
-struct Rew<'d, 'a, F: Family>(&'d mut Driver<'a, F>);
+pub struct Rew<'d, 'a, F: Family>(pub &'d mut Driver<'a, F>);
 impl<F: Family> TreeNodeRewriter for Rew<'_, '_, F>
 where
     F::Node: TreeNode,
@@ -684,20 +705,6 @@ where
     fn f_up(&mut self, n: F::Node) -> DFResult<Transformed<F::Node>> {
         Ok(self.0.on_owned(Phase::Up, n))
     }
-}
-
-pub fn visitor<'d, 'a, 'n, F: Family>(d: &'d mut Driver<'a, F>) -> impl TreeNodeVisitor<'n, Node = F::Node> + use<'d, 'a, 'n, F>
-where
-    F::Node: TreeNode + 'n,
-{
-    Vis(d)
-}
-
-pub fn rewriter<'d, 'a, F: Family>(d: &'d mut Driver<'a, F>) -> impl TreeNodeRewriter<Node = F::Node> + use<'d, 'a, F>
-where
-    F::Node: TreeNode,
-{
-    Rew(d)
 }
 
 fn of_t<N>(t: Transformed<N>) -> Actual<N> {
